@@ -3,8 +3,13 @@ inspect.getsource works) and (b) as Gallina literals for the correspondence file
 
 AST (plain tuples):
   expr : ("num", Fraction, is_float) | ("var", id) | ("un", op, e) | ("bin", op, a, b)
-       | ("ifexp", cond, a, b) | ("call", j, [e]) | ("callkw", j, [e]) | ("attr", Fraction, text)
-       | ("other", text)
+       | ("ifexp", cond, a, b) | ("call", j, [e]) | ("callkw", j, [e], slots | None[, npos]) | ("attr", Fraction, text)
+       | ("callx", builtin-name, [e]) | ("other", text)
+  ("callkw", j, args, slots, npos): args in the order they are WRITTEN; the first npos positional, the others `name=value` where
+  the name is callee parameter slots[i] (CPython binds by name); slots None = the old form: the last argument gets the
+  keyword of its own position (only used around arity mismatches).
+  ("callx", "abs", [e]): a call of something that is not a function of the module (py_fn is None: the translator
+  RETURNS None); Gallina: ECall of an index beyond the definitions.
   cond : ("cmp", e, [(op, e)]) | ("cother", text)
   stmt : ("assign", id, e) | ("tuple", [id], [e]) | ("if", cond, [stmt], [stmt]) | ("return", e)
        | ("retnone",) | ("pass",) | ("doc",) | ("other", [lines])
@@ -27,6 +32,7 @@ ATTR_CONSTS = {"KA": Fraction(3), "KB": Fraction(1, 4)}  # in the constants modu
 # local can have (nothing can assign to `cmod.KA`; the generator never binds 60/61); only module 'a' reads them.
 ATTR_IDS = {"KA": 60, "KB": 61}
 MOD_IDS = {"a": 0, "b": 1}
+UNKNOWN_FN = 99  # ECall index of "not a function of the module" (abs, max, round ...): beyond every definition list
 # values a constant may be rebound to between two translations (small dyadics, never 0: `x / K`)
 REBIND_POOL = [Fraction(1, 2), Fraction(1), Fraction(3, 2), Fraction(2), Fraction(-1, 2), Fraction(3), Fraction(4), Fraction(-2), Fraction(5, 2), Fraction(1, 4)]
 
@@ -52,6 +58,7 @@ class Gen:
         self.pure = True  # no node outside the modelled meaning (other/…)
         self.exact = False  # rendering mode: wrap every numeric literal in _X(...) (exact twin for the oracle)
         self.feat: set[str] = set()
+        self.shadow: int | None = None  # a module constant this function uses as a LOCAL name (set per function)
 
     # -- expressions ---------------------------------------------------------------------
     def lit(self, pow2: bool = False) -> tuple:
@@ -71,7 +78,8 @@ class Gen:
             return self.lit(pow2=True)
         if x < 0.68:
             self.feat.add("global-const")
-            return ("var", r.choice([50, 51, 52]))
+            # a name the function assigns somewhere is a local for CPython in the WHOLE function: never read as a global
+            return ("var", r.choice([k for k in (50, 51, 52) if k != self.shadow]))
         if x < 0.72 and (divisor or sc["mod"] != "a"):
             return self.lit(pow2=divisor)
         if x < 0.72:
@@ -135,10 +143,23 @@ class Gen:
                 n = max(0, n + r.choice([-1, 1]))
                 self.feat.add("call-arity-mismatch")
             args = [self.expr(sc, d - 1, divisor) for _ in range(n)]
-            if r.random() < 0.015 and n >= 1:
+            full = n == len(self.funcs[j]["params"])
+            if full and n >= 1 and r.random() < 0.13:
+                # keyword arguments, bound by NAME: the first npos arguments positional, the others as keywords in a
+                # (mostly) different order than the callee's parameters (seeded C06-7 appends them positionally)
+                npos = r.choice([0, 0, r.randrange(n)])
+                kw = list(range(npos, n))
+                if len(kw) >= 2 and r.random() < 0.85:
+                    while kw == list(range(npos, n)):
+                        r.shuffle(kw)
+                    self.feat.add("call-keywords-other-order")
+                self.feat.add("call-keywords")
+                slots = list(range(npos)) + kw
+                return ("callkw", j, [args[k] for k in slots], slots, npos)
+            if not full and r.random() < 0.1 and n >= 1:
                 self.feat.add("call-keywords")
                 self.pure = False
-                return ("callkw", j, args)
+                return ("callkw", j, args, None)
             return ("call", j, args)
         if x < 0.903:
             return self.other_expr(sc, d)
@@ -153,9 +174,9 @@ class Gen:
         k = r.randrange(8)
         pv = [p for p in sc["params"] if p not in sc["assigned"]]
         if k == 0 and pv:
-            return ("other", f"abs({vn(r.choice(pv))})")
+            return ("callx", "abs", [("var", r.choice(pv))])
         if k == 1 and pv:
-            return ("other", f"max({vn(r.choice(pv))}, 1)")
+            return ("callx", "max", [("var", r.choice(pv)), ("num", Fraction(1), False)])
         if k == 2:
             return ("other", f"({a} and 1)")
         if k == 3:
@@ -207,6 +228,15 @@ class Gen:
             if x < 0.42:
                 tgt = r.choice(sc["vars"]) if (sc["vars"] and r.random() < 0.35) else r.choice([10, 11, 12, 13])
                 e = self.expr(sc, 2)
+                if self.shadow is not None and r.random() < 0.45:
+                    # a LOCAL named like a module constant (it shadows the constant in Python and in the translator's
+                    # table); mostly from a right-hand side for which the translator RETURNS None -- a call relying on
+                    # a default value, a call of something that is not a function of the module (seeded C06-6 stores
+                    # that None and the later read falls through to the module constant)
+                    tgt = self.shadow
+                    self.feat.add("local-shadows-constant")
+                    if r.random() < 0.65:
+                        e = self.none_rhs(sc)
                 out.append(("assign", tgt, e))
                 self._bind(sc, tgt)
                 if tgt in sc["params"]:
@@ -284,6 +314,26 @@ class Gen:
                 self.feat.add("param-reassigned")
         return out
 
+    def none_rhs(self, sc: dict) -> tuple:
+        """a right-hand side that has a value in Python but for which _handle_expr RETURNS None (no exception)"""
+        r = self.rng
+        cands = [j for j in sc["callees"] if self.funcs[j].get("defaults") and len(self.funcs[j]["params"]) >= 2]
+        self.feat.add("assign-rhs-returns-none")
+        if cands and r.random() < 0.6:
+            j = r.choice(cands)
+            n = len(self.funcs[j]["params"])
+            n = max(1, n - r.randint(1, len(self.funcs[j]["defaults"])))
+            self.feat.add("call")
+            self.feat.add("call-relying-on-default")
+            if self.funcs[j]["mod"] != sc["mod"]:
+                self.feat.add("call-other-module")
+            return ("call", j, [self.expr(sc, 1) for _ in range(n)])
+        self.pure = False  # abs / max have a value in Python, none in PyLang
+        self.feat.add("call-not-a-module-function")
+        if r.random() < 0.5:
+            return ("callx", "abs", [self.expr(sc, 1)])
+        return ("callx", "max", [self.expr(sc, 1), ("num", Fraction(r.choice([0, 1, 2])), False)])
+
     def _bind(self, sc: dict, t: int) -> None:
         if t not in sc["vars"]:
             sc["vars"] = sc["vars"] + [t]
@@ -313,6 +363,9 @@ class Gen:
         if r.random() < 0.9:
             sc["vars"] = both
         else:
+            # (a module constant used as a local is never left "maybe bound": CPython raises UnboundLocalError where
+            # the translator and PyLang would read the module constant)
+            union = [v for v in union if v in both or v not in (50, 51, 52)]
             sc["vars"] = union
             if len(union) != len(both):
                 self.feat.add("maybe-unbound-after-if")
@@ -349,6 +402,7 @@ class Gen:
     def function(self, idx: int, n_params: int, mod: str, callees: list[int], small: bool = False) -> dict:
         r = self.rng
         params = list(range(1, n_params + 1))
+        self.shadow = r.choice([50, 51, 52]) if r.random() < 0.16 else None
         sc = {"vars": list(params), "params": params, "assigned": set(), "callees": callees, "mod": mod}
         body: list = []
         if r.random() < 0.1:
@@ -382,10 +436,14 @@ class Gen:
             return f"({self.src(e[2], mod=m)} {BIN_PY[e[1]]} {self.src(e[3], mod=m)})"
         if k == "ifexp":
             return f"({self.src(e[2], mod=m)} if {self.src_cond(e[1], mod=m)} else {self.src(e[3], mod=m)})"
+        if k == "callx":
+            return f"{e[1]}({', '.join(self.src(a, mod=m) for a in e[2])})"
         if k in ("call", "callkw"):
             g = self.funcs[e[1]]
             args = [self.src(a, mod=m) for a in e[2]]
-            if k == "callkw":
+            if k == "callkw" and e[3] is not None:
+                args = [a if i < e[4] else f"{vn(g['params'][sl])}={a}" for i, (a, sl) in enumerate(zip(args, e[3]))]
+            elif k == "callkw":
                 # (a parameterless callee reached through an arity mismatch has no parameter name to use: any keyword does,
                 # CPython raises TypeError and the translator refuses keywords whatever their name)
                 kw = vn(g["params"][min(len(args), len(g["params"])) - 1]) if g["params"] else "v01"
@@ -476,7 +534,10 @@ def g_expr(e: tuple) -> str:
     if k == "call":
         return f"(ECall {e[1]} {g_exprs(e[2])})"
     if k == "callkw":
-        return f"(ECallKw {e[1]} {g_exprs(e[2])})"
+        slots = e[3] if e[3] is not None else list(range(len(e[2])))
+        return f"(ECallKw {e[1]} [{'; '.join(f'{x}%nat' for x in slots)}] {g_exprs(e[2])})"
+    if k == "callx":
+        return f"(ECall {UNKNOWN_FN} {g_exprs(e[2])})"
     if k == "other":
         return "EOther"
     raise AssertionError(k)
